@@ -364,7 +364,25 @@ func runHarnesses(ld *Loaded, cfg *RunConfig, harnesses []string, workers int, m
 							}
 						}
 					}
-					for _, nv := range st.NoteVals {
+					for ni, nv := range st.NoteVals {
+						if ints, ok := st.NoteInts[ni]; ok {
+							txt := "note: " + nv.String() + " ["
+							memo := map[uint32]*Term{}
+							for k, t := range ints {
+								if k > 0 {
+									txt += " "
+								}
+								if t.IsConst() {
+									txt += fmt.Sprint(t.Int())
+								} else if fm != nil {
+									txt += fmt.Sprint(in.ts.Eval(t, fm, memo).Int())
+								} else {
+									txt += "?"
+								}
+							}
+							rep.Notes = append(rep.Notes, txt+"]")
+							continue
+						}
 						if nv.Opq {
 							rep.Notes = append(rep.Notes, "note: <opaque>")
 						} else if nv.B == nil {
